@@ -743,6 +743,7 @@ m('undo-reads-records-into-one-page', ['C02', 'C01', 'C20'], LR, """			logRecov.
 m('redo-refuses-shrinking-update-records', ['C03', 'C02', 'C01', 'C20'], LR, """&logRecord.OldTuple, &logRecord.UpdateRID, txn, nil, logRecov.logManager, true)
 					pg.SetLSN(logRecord.GetLSN())""", """&logRecord.OldTuple, &logRecord.UpdateRID, txn, nil, logRecov.logManager, false)
 					pg.SetLSN(logRecord.GetLSN())""", ['C03-R9 [Redo:update-record-applied-in-both-directions#1]'])
+m('join-visitor-keeps-last-on-clause', ['C11'], 'lib/parser/join_visitor.go', """			v.QueryInfo.OnExpressions = v.QueryInfo.OnExpressions.AppendBinaryOpExpWithAnd(bv.BinaryOpExpression)""", """			v.QueryInfo.OnExpressions = bv.BinaryOpExpression""", ['C11-R10 [JoinVisitor.Enter:on-conditions-are-combined]'])
 # drop the one that needs a helper that does not exist
 M = [x for x in M if x['id'] != 'insert-executor-unlocks-early']
 os.chdir(os.path.dirname(os.path.abspath(__file__)) + '/..')
